@@ -21,10 +21,24 @@ structure Inv (env : Env Hash) (s : State) : Prop where
   nonneg : ∀ pe ∈ s.peers, ∀ h, pe.hs = some h → 0 ≤ h.msize
   dls : ∀ e ∈ s.dls, ∃ pe ∈ s.peers, pe.id = e.1 ∧ ∃ h, pe.hs = some h ∧ GoodHs env h ∧
           WF blockSize (peerMetadataSize h) e.2
-  hash : ∀ b, s.info = some b → env.H b = env.infoHash
+  hash : ∀ b, s.info = some b → env.H b = env.infoHash ∧ env.parseInfo b = some false
   nopanic : s.panicked = false
 
 theorem blockSize_pos : 0 < blockSize := by decide
+
+/-- Whenever the decision sets `t.info` (adoption, or the resume-write error path) the bytes hash
+to the info-hash and parsed as a non-private info. -/
+theorem decide_info (env : Env Hash) (bytes : Bytes)
+    (h : decide_ env bytes = .adopt ∨ ∃ r, decide_ env bytes = .stop r true) :
+    env.H bytes = env.infoHash ∧ env.parseInfo bytes = some false := by
+  unfold decide_ at h
+  by_cases hH : env.H bytes = env.infoHash
+  · refine ⟨hH, ?_⟩
+    simp only [hH, ne_eq, not_true_eq_false, ↓reduceIte] at h
+    cases hp : env.parseInfo bytes with
+    | none => simp [hp] at h
+    | some pv => cases pv <;> simp_all
+  · simp [hH] at h
 
 theorem inv_init (env : Env Hash) : Inv env State.init :=
   ⟨by simp [State.init], by simp [State.init], by simp [State.init], by simp [State.init], rfl⟩
@@ -287,11 +301,10 @@ theorem step_spec (env : Env Hash) (s : State) (e : Event) (hI : Inv env s) :
             simp only at hb
             split at hb
             · cases hb
-              unfold decide_ at hdec
-              split at hdec
-              · cases hdec
-              · rename_i hH
-                simpa using hH
+              rename_i hset
+              have : infoSet = true := hset
+              subst this
+              exact decide_info env _ (Or.inr ⟨r, hdec⟩)
             · exact hI.hash b hb
           · -- adopt
             rename_i hdec
@@ -299,11 +312,7 @@ theorem step_spec (env : Env Hash) (s : State) (e : Event) (hI : Inv env s) :
             intro b hb
             simp only [Option.some.injEq] at hb
             subst hb
-            unfold decide_ at hdec
-            split at hdec
-            · cases hdec
-            · rename_i hH
-              simpa using hH
+            exact decide_info env _ (Or.inl hdec)
   | reject p picks =>
     simp only [step]
     split
